@@ -21,6 +21,7 @@ def tasks(tier, seed):
         ts += [dict(t, what="binary") for t in gen.dfa_src_tasks(2, "ab", 4)]
         ts += [{"kind": "rnd_dfa", "count": 400, "seed": seed * 50 + i, "what": "both"} for i in range(3)]
         ts += [{"kind": "numbered_dfa", "count": 25, "seed": seed * 50 + i, "what": "unary"} for i in range(2)]
+        ts += [{"kind": "comma_pairs", "count": 150, "seed": seed * 50 + i} for i in range(2)]
         ts += [{"kind": "lang", "lo": i * 32, "hi": (i + 1) * 32, "pairs": 400, "seed": seed} for i in range(4)]
     else:
         ts += [dict(t, what="unary") for t in gen.dfa_src_tasks(3, "ab", 16, pools=(0, 5))]
@@ -28,6 +29,7 @@ def tasks(tier, seed):
         ts += [dict(t, what="binary3") for t in gen.dfa_src_tasks(3, "ab", 16, stride=13)]
         ts += [{"kind": "rnd_dfa", "count": 1500, "seed": seed * 50 + i, "what": "both"} for i in range(24)]
         ts += [{"kind": "numbered_dfa", "count": 100, "seed": seed * 50 + i, "what": "unary"} for i in range(8)]
+        ts += [{"kind": "comma_pairs", "count": 600, "seed": seed * 50 + i} for i in range(8)]
         ts += [{"kind": "lang", "lo": i * 8, "hi": (i + 1) * 8, "pairs": 128 * 8, "seed": seed} for i in range(16)]
     return gen.spread(ts, hs)
 
@@ -119,9 +121,38 @@ def lang_events(task):
                 yield ev("words_up_to_n", [], [], r or [], exc, n=n, sigma=sigma)
 
 
+def comma_pairs(task):
+    """operand pairs whose state names contain commas (pool 6): the product names its states '(p,q)'"""
+    rng = random.Random(task["seed"])
+    pool = U.NAME_POOLS[6]
+    for i in range(task["count"]):
+        S = rng.choice(["a", "ab"])
+        Ds = []
+        for _ in range(2):
+            k = rng.randint(1, 3)
+            D = U.random_dfa(rng, k, S)
+            nm = rng.sample(pool, k)
+            Ds.append(U.rename_fa(D, {"s%d" % j: nm[j] for j in range(k)}))
+        yield from binary_events(Ds[0], Ds[1], {"kind": "comma_pair", "seed": task["seed"], "index": i})
+
+
+def product_names_collide(e):
+    """two different pairs of operand states print as the same product state '(p,q)'"""
+    if e.get("op") != "dfa_op" or e.get("name") not in BINARY:
+        return False
+    names = ["(%s,%s)" % (p, q) for p in e["a"]["Q"] for q in e["b"]["Q"]]
+    return len(set(names)) < len(names)
+
+
+MATCHERS = {"product_names_collide": product_names_collide}
+
+
 def drive(task):
     if task["kind"] == "lang":
         yield from lang_events(task)
+        return
+    if task["kind"] == "comma_pairs":
+        yield from comma_pairs(task)
         return
     what = task.get("what", "both")
     prev = None
@@ -141,6 +172,11 @@ def drive(task):
 
 def redrive(src):
     import gambatools.language_algorithms as la
+    if src["kind"] == "comma_pair":
+        for e in comma_pairs({"seed": src["seed"], "count": src["index"] + 1}):
+            if e["src"]["index"] == src["index"]:
+                yield e
+        return
     if src["kind"] == "lang":
         task = None
         name = src["name"]
@@ -182,8 +218,8 @@ def nontrivial(e):
 
 
 def check(tier, seed):
-    return base.standard_check(PID, tier, seed, tasks(tier, seed), MODELS[tier], RULE, nontrivial,
-                               assumptions=["<= 6 states", "languages over {a,b}, words <= 2 (helpers)"])
+    return base.standard_check(PID, tier, seed, tasks(tier, seed), MODELS[tier], RULE, nontrivial, matchers=MATCHERS,
+                               assumptions=["<= 6 states (13 with numbered names)", "languages over {a,b}, words <= 2 (helpers)"])
 
 
 def replay(path, seed):
